@@ -38,6 +38,58 @@ def _strip_suffix(name: str) -> str:
     return name
 
 
+# Names under which the package's two async adapters are known (the functions are recognised by what they do, in
+# whatever module they live and under whatever name they are imported):
+#   list adapter:   `async def f(it): for item in it: yield item`                       f(X) iterates like X
+#   chain adapter:  `async def f(*its): for it in its: async for e in it: yield e`      f(...) is itertools.chain(...)
+ALIST_NAMES = {"_alist"}
+ACHAIN_NAMES = {"_achain"}
+
+
+def register_helpers(repo) -> None:  # type: ignore[no-untyped-def]
+    alist, achain = set(), set()
+    for fn in repo.functions.values():
+        n = fn.node
+        if not isinstance(n, ast.AsyncFunctionDef) or fn.cls is not None:
+            continue
+        body = [b for b in n.body if not (isinstance(b, ast.Expr) and isinstance(b.value, ast.Constant))]
+        if len(body) != 1 or not isinstance(body[0], ast.For) or body[0].orelse or not isinstance(body[0].target, ast.Name):
+            continue
+        loop = body[0]
+        a = n.args
+        if (len(a.args) == 1 and not a.vararg and isinstance(loop.iter, ast.Name) and loop.iter.id == a.args[0].arg and len(loop.body) == 1
+                and isinstance(loop.body[0], ast.Expr) and isinstance(loop.body[0].value, ast.Yield)
+                and isinstance(loop.body[0].value.value, ast.Name) and loop.body[0].value.value.id == loop.target.id):
+            alist.add(fn.qualname)
+        if (not a.args and a.vararg is not None and isinstance(loop.iter, ast.Name) and loop.iter.id == a.vararg.arg and len(loop.body) == 1
+                and isinstance(loop.body[0], ast.AsyncFor) and not loop.body[0].orelse and isinstance(loop.body[0].iter, ast.Name)
+                and loop.body[0].iter.id == loop.target.id and isinstance(loop.body[0].target, ast.Name) and len(loop.body[0].body) == 1
+                and isinstance(loop.body[0].body[0], ast.Expr) and isinstance(loop.body[0].body[0].value, ast.Yield)
+                and isinstance(loop.body[0].body[0].value.value, ast.Name) and loop.body[0].body[0].value.value.id == loop.body[0].target.id):
+            achain.add(fn.qualname)
+    names_l, names_c = set(), set()
+    for q in alist:
+        names_l.add(q.split(".")[-1])
+    for q in achain:
+        names_c.add(q.split(".")[-1])
+    for mod in repo.modules.values():
+        for st in ast.walk(mod.tree) if hasattr(mod, "tree") else []:
+            if isinstance(st, ast.ImportFrom):
+                for al in st.names:
+                    if al.name in {q.split(".")[-1] for q in alist}:
+                        names_l.add(al.asname or al.name)
+                    if al.name in {q.split(".")[-1] for q in achain}:
+                        names_c.add(al.asname or al.name)
+    if names_l:
+        ALIST_NAMES.clear()
+        ALIST_NAMES.update(names_l)
+    if names_c:
+        ACHAIN_NAMES.clear()
+        ACHAIN_NAMES.update(names_c)
+
+
+@dataclass
+
 @dataclass
 class NormResult:
     body: List[ast.stmt]
@@ -134,10 +186,10 @@ class _Rewriter(ast.NodeTransformer):
     def visit_Call(self, node: ast.Call) -> ast.AST:
         self.generic_visit(node)
         f = node.func
-        if isinstance(f, ast.Name) and f.id == "_alist" and len(node.args) == 1 and not node.keywords:
+        if isinstance(f, ast.Name) and f.id in ALIST_NAMES and len(node.args) == 1 and not node.keywords:
             self.res.idioms.append("_alist(X) == X")
             return node.args[0]
-        if isinstance(f, ast.Name) and f.id == "_achain":
+        if isinstance(f, ast.Name) and f.id in ACHAIN_NAMES:
             self.res.idioms.append("_achain == itertools.chain")
             node.func = ast.Attribute(
                 value=ast.Name(id="itertools", ctx=ast.Load()), attr="chain", ctx=ast.Load()
